@@ -1,4 +1,5 @@
 import RV.C20.Props
+import RV.C20.TextProps
 open RV.C20
 #print axioms remote_mirrors
 #print axioms deferred_visibility
@@ -10,3 +11,8 @@ open RV.C20
 #print axioms reads_exact
 #print axioms commit_sends_whole_queue_in_order
 #print axioms dedup_would_lose_a_write
+#print axioms term_text_roundtrip
+#print axioms request_text_means_op
+#print axioms commit_text_is_sequence
+#print axioms separator_survives_trailing_comment
+#print axioms query_text_means_pattern
